@@ -138,6 +138,22 @@ pub fn spec(id: &str) -> Option<PropSpec> {
             real: &["rsdd RobddBuilder, CompressionSddBuilder, StandardDecisionNNFBuilder, all query code in repr/bdd.rs, repr/sdd.rs, repr/ddnnf.rs, all shipped semirings"],
             simulated: SIM_COMMON,
         },
+        "C11" => PropSpec {
+            id: "C11",
+            batches: vec![b("semhash", 40_000, 2_000_000, true)],
+            rule: "one case = one seeded run: one history (var/negate/and/or/condition/exists/compile_cnf, up to 51 (thorough: 96) operations, 1-6 variables) executed in lock-step on two BDD builders (two orders), a compressed and an uncompressed SDD builder (two vtrees) and a SemanticSddBuilder<64-bit prime> (third vtree); compile_cnf_topdown/negate/condition on a StandardDecisionNNFBuilder and a SemanticDecisionNNFBuilder<64-bit prime> (two decision orders); cached hashes are requested at random points of the history; table capacities tiny-to-shipped; cache-forgetting and early-growth faults. Distinct = distinct event-log hash. Non-trivial = at least 3 results AND a fault fired or a table grew/displaced.",
+            states_measure: "distinct Boolean functions realised (each in 5-7 representations)",
+            probe_prefixes: &["Sem", "DnnfCond", "TopDown", "Table"],
+            assumptions: &[
+                "at most 6 variables (64 models per defining sum)",
+                "only 'equal function => equal hash / eq' is asserted, never the converse: hash collisions cannot raise an alarm",
+                "a wrong answer of a hash-identified builder caused by a true 64-bit collision has probability about 2^-50 per run; it would reproduce deterministically and be triaged as such",
+                "ite/iff/xor/compose of SemanticSddBuilder are todo!() in the library and not part of the statement",
+                "seeded sampling, not exhaustive",
+            ],
+            real: &["rsdd semantic_hash / cached_semantic_hash (BDD, SDD), create_semantic_hash_map, SemanticSddBuilder, SemanticDecisionNNFBuilder, StandardDecisionNNFBuilder, CompressionSddBuilder, RobddBuilder, FiniteField"],
+            simulated: SIM_COMMON,
+        },
         _ => return None,
     })
 }
